@@ -389,7 +389,11 @@ _AMEND2 = {
              "inclusive filters on every route from a page's versions to the result; the recursion condition, evaluated with short-circuit order over "
              "(truncated, page empty, start unset, oldest >= start), continues at least while needed and never indexes an empty page - a page of "
              "delete markers neither fails nor ends the listing (F31);")],
-    "C11": [("at every non-classification level (new groups are created and filled),",
+    "C11": [("grouped by is recovered in all office-class x request configurations,",
+             "grouped by is recovered in all office-class x request configurations - by the parser of that key, whose decision tree is "
+             "evaluated over id shapes (county = second part of a <district>_<county> id, else the first; district = the first) and "
+             "never indexes a part the id may not have,"),
+            ("at every non-classification level (new groups are created and filled),",
              "at every non-classification level (new groups are created and filled; for every return of the gaussian aggregate function, the "
              "shortcut for 'nothing outstanding' included),")],
     "C17": [("before any estimate is computed;",
@@ -398,10 +402,6 @@ _AMEND2 = {
     "C18": [("cannot leave old results next to new settings (F26).",
              "cannot leave old results next to new settings (F26), and a run publishes its own results handler on the client only after every model "
              "step has completed, so a request rejected midway leaves no half-filled results for a later summary either (F36).")],
-    "C11": [("grouped by is recovered in all office-class x request configurations,",
-             "grouped by is recovered in all office-class x request configurations - by the parser of that key, whose decision tree is "
-             "evaluated over id shapes (county = second part of a <district>_<county> id, else the first; district = the first) and "
-             "never indexes a part the id may not have,")],
     "C06": [("the ranks are the statement's own formulas;",
              "the ranks are the statement's own formulas; every quotient by a group turnout total is nan_to_num(x / total), so a group with zero "
              "predicted turnout has margin 0, not NaN;")],
